@@ -1,15 +1,15 @@
 \* tiny config run with -coverage 1: vacuity guard (every action and every guard branch is exercised)
 SPECIFICATION Spec
 CONSTANTS
-  MaxGroups = 3
+  MaxGroups = 2
   MaxDepth = 3
   MaxRoots = 1
   NCPU = 2
-  MemVals = {1, 2}
+  MemVals = {1}
   ThrVals = {}
   CpuCounts = {0, 1}
   CpuPcts = {100}
-  Cores = {0, 1}
+  Cores = {0}
   OtherVals = {TRUE}
   Paths = {"direct", "merged"}
 VIEW View
